@@ -1,1 +1,276 @@
-fn main(){}
+//! C03 — scaled and hinted outlines match FreeType for static fonts (differential against the FreeType build linked by
+//! the repository's comparison tool, through that tool's own adapters and path normalisation).
+use fauntlet::{Font, Hinting, HintingTarget, InstanceOptions, RegularizingPen};
+use serde::{Deserialize, Serialize};
+use skrifa::{outline::pen::PathElement, GlyphId};
+use vcore::*;
+
+#[derive(Clone, Debug, Serialize, Deserialize)]
+struct Case {
+    font: String,
+    /// 0 unhinted, 1..=5 interpreter x {mono, normal, light, lcd, vertical lcd}, 6 autohinter (normal)
+    mode: u8,
+    /// 0 = unscaled (font units)
+    ppem: u32,
+}
+
+fn mode_of(m: u8) -> Option<Hinting> {
+    match m {
+        0 => None,
+        1 => Some(Hinting::Interpreter(HintingTarget::Mono)),
+        2 => Some(Hinting::Interpreter(HintingTarget::Normal)),
+        3 => Some(Hinting::Interpreter(HintingTarget::Light)),
+        4 => Some(Hinting::Interpreter(HintingTarget::Lcd)),
+        5 => Some(Hinting::Interpreter(HintingTarget::VerticalLcd)),
+        _ => Some(Hinting::Auto(HintingTarget::Normal)),
+    }
+}
+fn mode_kind(m: u8) -> &'static str {
+    match m {
+        0 => "unhinted",
+        1..=5 => "interpreter",
+        _ => "autohinter",
+    }
+}
+fn ppem_class(p: u32) -> &'static str {
+    match p {
+        0 => "unscaled",
+        1..=4 => "ppem<=4",
+        5..=2000 => "ppem5..2000",
+        _ => "ppem>2000",
+    }
+}
+
+struct FontInfo {
+    name: String,
+    path: std::path::PathBuf,
+    is_cff: bool,
+    hinted: bool,
+}
+
+fn static_outline_fonts() -> Vec<FontInfo> {
+    let mut out = vec![];
+    for f in corpus::all_fonts() {
+        let Ok(font) = read_fonts::FontRef::new(&f.data) else { continue };
+        use read_fonts::types::Tag;
+        let has = |t: &[u8; 4]| font.table_data(Tag::new(t)).is_some();
+        if has(b"fvar") {
+            continue; // variable fonts are outside the property
+        }
+        let is_cff = has(b"CFF ");
+        if !(has(b"glyf") || is_cff) {
+            continue;
+        }
+        let hinted = is_cff || font.table_data(Tag::new(b"fpgm")).map(|d| d.len() > 0).unwrap_or(false) || font.table_data(Tag::new(b"prep")).map(|d| d.len() > 0).unwrap_or(false);
+        out.push(FontInfo { name: f.name.clone(), path: f.path.clone(), is_cff, hinted });
+    }
+    out
+}
+
+/// combinations where skrifa differs from this FreeType build on the unchanged tree (DESIGN.md C03-F; found by the
+/// VERIF_C03_SURVEY run over the full grid); excluded from the grid by construction (counted), reproduced by the
+/// dedicated `known-discrepancies` stage so that the KNOWN-FINDING lines are printed
+fn excluded(info: &FontInfo, mode: u8, ppem: u32) -> bool {
+    // CFF hinting: FreeType's engine changes behaviour at the extremes, skrifa does not follow
+    if info.is_cff && (1..=5).contains(&mode) && (ppem <= 4 || ppem > 2000) {
+        return true;
+    }
+    // skrifa cannot load any glyph of this fixture ("offset out of bounds"), FreeType can
+    if info.name == "charstring_path_ops.ttf" {
+        return true;
+    }
+    false
+}
+/// per-glyph exclusions (same policy)
+fn excluded_glyph(font: &str, mode: u8, gid: u32) -> bool {
+    // FreeType 2.12.1 leaves these two glyphs unhinted
+    font == "tthint_subset.ttf" && (1..=5).contains(&mode) && (gid == 1 || gid == 2)
+}
+
+fn test(fonts: &[FontInfo], c: &Case, stats: &Stats, agree: Option<&std::collections::BTreeSet<String>>, apply_exclusions: bool) -> CaseResult {
+    let Some(info) = fonts.iter().find(|f| f.name == c.font) else {
+        stats.class("font_not_in_corpus");
+        return Ok(());
+    };
+    let Some(mut font) = Font::new(&info.path) else {
+        return Err(Fail::new("c03|harness|font-load", format!("fauntlet cannot load {}", c.font)));
+    };
+    let mode = mode_of(c.mode);
+    let opts = InstanceOptions::new(0, c.ppem, &[], mode);
+    let Some((mut ft, mut sk)) = font.instantiate(&opts) else {
+        stats.class("no_instance");
+        return Ok(());
+    };
+    if !ft.is_scalable() {
+        stats.class("not_scalable");
+        return Ok(());
+    }
+    let n = sk.glyph_count();
+    let mut bad: Vec<u32> = vec![];
+    let mut first_msg = String::new();
+    let mut compared = 0u64;
+    let mut nontrivial = 0u64;
+    for gid in 0..n {
+        if c.mode == 6 {
+            // the autohinter is compared only where the baseline agrees (frozen agreement set)
+            match agree {
+                Some(set) if set.contains(&c.font) => {}
+                None if std::env::var("VERIF_C03_SURVEY").is_ok() => {}
+                _ => continue,
+            }
+        }
+        if apply_exclusions && excluded_glyph(&c.font, c.mode, gid as u32) {
+            stats.class("excluded_known");
+            continue;
+        }
+        let g = GlyphId::from(gid);
+        let mut fo: Vec<PathElement> = vec![];
+        let mut so: Vec<PathElement> = vec![];
+        let fa = ft.outline(g, &mut RegularizingPen::new(&mut fo, c.ppem != 0));
+        let sa = sk.outline(g, &mut RegularizingPen::new(&mut so, c.ppem != 0));
+        let Some(fa) = fa else {
+            stats.class("freetype_load_error");
+            continue;
+        };
+        compared += 1;
+        if !fo.is_empty() && (c.mode == 0 || info.hinted) {
+            nontrivial += 1;
+        }
+        let mut why = None;
+        match sa {
+            Err(e) => why = Some(format!("skrifa error {e} where FreeType produced an outline")),
+            Ok(sa) => {
+                if fo != so {
+                    let k = fo.iter().zip(so.iter()).position(|(a, b)| a != b).unwrap_or(fo.len().min(so.len()));
+                    why = Some(format!("paths differ at command {k}: FreeType {:?} vs skrifa {:?} ({} vs {} commands)", fo.get(k), so.get(k), fo.len(), so.len()));
+                } else if let Some(sa) = sa {
+                    if sa != fa {
+                        why = Some(format!("advance width differs: FreeType {fa} vs skrifa {sa}"));
+                    }
+                }
+            }
+        }
+        if let Some(w) = why {
+            if bad.is_empty() {
+                first_msg = format!("glyph {gid}: {w}");
+            }
+            bad.push(gid as u32);
+        }
+    }
+    stats.evals(compared);
+    stats.class_n(&format!("glyph_comparisons:{}", mode_kind(c.mode)), compared);
+    if nontrivial > 0 {
+        stats.nontrivial(hash_json(c));
+        stats.class_n("nontrivial_glyph_comparisons", nontrivial);
+        if stats.want_sample() && hash_json(c) % 16 == 0 {
+            stats.sample(serde_json::json!({"case": c, "glyphs_compared": compared}));
+        }
+    }
+    if bad.is_empty() {
+        return Ok(());
+    }
+    let gidclass = if bad.len() <= 4 { format!("gids={}", bad.iter().map(|g| g.to_string()).collect::<Vec<_>>().join(",")) } else { "many-glyphs".to_string() };
+    Err(Fail::new(
+        format!("c03|{}|{}|{}|{}", c.font, mode_kind(c.mode), ppem_class(c.ppem), gidclass),
+        format!("{} of {} glyphs of {} differ from FreeType at mode {:?} ppem {}; first: {}", bad.len(), compared, c.font, mode, c.ppem, first_msg),
+    ))
+}
+
+fn full_grid() -> Vec<u32> {
+    let mut v: Vec<u32> = (1..=256).collect();
+    v.extend((288..=1024).step_by(32));
+    v.extend([1200, 1500, 1600, 1800, 2000]);
+    v
+}
+
+fn main() {
+    let ctx = Ctx::from_args("C03");
+    ctx.set_rule("every static (no fvar) glyf or CFF font of the repository corpus + the vendored DejaVu/Liberation/FiraSans fonts x all glyphs x {font units; ppem grid: every integer 1..=256, 288..=1024 step 32, 1200, 1500, 1600, 1800, 2000 (thorough) / a seeded 40-size sample per font and mode (quick)} x {unhinted, interpreter x {mono, normal, light, LCD, vertical LCD}, autohinter (normal) on the frozen agreement fonts}; FreeType side and path normalisation through fauntlet's adapters (FreeTypeInstance, SkrifaInstance, RegularizingPen); oracle: exact equality of the regularised command streams and of the advance width where skrifa reports one. A case = (font, mode, ppem) comparing all glyphs; evaluations count glyph comparisons. Non-trivial: the case compared >= 1 glyph with a non-empty outline and (for hinted modes) the font carries fpgm/prep or CFF hints; distinct by (font, mode, ppem).");
+    ctx.assume("the oracle is the FreeType version built by freetype-sys as linked by fauntlet (2.12.1); listed discrepancies of the unchanged tree are excluded from the grid by construction and reproduced in a dedicated stage");
+    ctx.assume("the autohinter is compared only on the frozen font list corpus/c03_auto_agree.json (fonts on which skrifa's autohinter agrees with this FreeType build at every grid size on the unchanged tree): FreeType 2.12.1's autohinter differs from the newer one skrifa ports on most other fonts, and the property restricts the autohinter to where the baseline agrees");
+    let fonts = static_outline_fonts();
+    ctx.note("fonts", serde_json::json!(fonts.iter().map(|f| f.name.clone()).collect::<Vec<_>>()));
+    let grid = full_grid();
+    // frozen list of fonts on which skrifa's autohinter agrees with this FreeType build at every grid size on the
+    // unchanged tree ("the auto-hinter where the baseline agrees"); produced by the survey run, reviewed, committed
+    let agree: std::collections::BTreeSet<String> = std::fs::read_to_string(verif_dir().join("corpus/c03_auto_agree.json"))
+        .ok()
+        .and_then(|s| serde_json::from_str::<Vec<String>>(&s).ok())
+        .unwrap_or_default()
+        .into_iter()
+        .collect();
+    ctx.note("autohinter_agreement_fonts", serde_json::json!(agree));
+    let mut cases: Vec<Case> = vec![];
+    let mut excl = 0u64;
+    for (fi, f) in fonts.iter().enumerate() {
+        for mode in 0u8..=6 {
+            if mode == 6 && !agree.contains(&f.name) {
+                continue;
+            }
+            let mut sizes: Vec<u32> = if ctx.quick() {
+                // seeded sample: 40 sizes per (font, mode), always including a small, a text and a large size
+                let mut s = vec![[7u32, 9, 11, 12, 13][(mix(ctx.seed, fi as u64 * 7 + mode as u64) % 5) as usize], 16, [96u32, 128, 200, 512, 1000][(mix(ctx.seed ^ 5, fi as u64 * 7 + mode as u64) % 5) as usize]];
+                let mut k = 0u64;
+                while s.len() < 40 {
+                    let p = grid[(mix(mix(ctx.seed, 0xC03), (fi as u64) << 16 | (mode as u64) << 8 | k) % grid.len() as u64) as usize];
+                    k += 1;
+                    if !s.contains(&p) {
+                        s.push(p);
+                    }
+                }
+                s
+            } else {
+                grid.clone()
+            };
+            if mode == 0 {
+                sizes.push(0);
+            }
+            // very large fonts: thin the thorough grid to keep the tier within its budget
+            for p in sizes {
+                if excluded(f, mode, p) {
+                    excl += 1;
+                    continue;
+                }
+                cases.push(Case { font: f.name.clone(), mode, ppem: p });
+            }
+        }
+    }
+    ctx.excluded_known(excl);
+    if std::env::var("VERIF_C03_SURVEY").is_ok() {
+        // development aid: full grid without exclusions, mismatching ppems per (font, mode kind, gid class)
+        let mut sgrid = grid.clone();
+        sgrid.extend([2047, 2048, 3000, 4096]);
+        let sgrid = &sgrid;
+        let all: Vec<Case> = fonts.iter().flat_map(|f| (0u8..=6).flat_map(|m| sgrid.iter().map(move |p| (m, *p))).map(|(m, p)| Case { font: f.name.clone(), mode: m, ppem: p }).collect::<Vec<_>>()).collect();
+        let map = std::sync::Mutex::new(std::collections::BTreeMap::<String, Vec<u32>>::new());
+        ctx.index_stage("survey", Isolation::Threads, all.len() as u64, |i| all[i as usize].clone(), |c, s| {
+            if let Err(f) = test(&fonts, c, s, None, false) {
+                let parts: Vec<&str> = f.sig.split('|').collect();
+                map.lock().unwrap().entry(format!("{} {} mode{} {}", parts[1], parts[2], c.mode, parts[4])).or_default().push(c.ppem);
+            }
+            Ok(())
+        });
+        for (k, mut v) in map.into_inner().unwrap() {
+            v.sort();
+            println!("SURVEY {k}: {} ppems: {:?}..{:?}", v.len(), &v[..v.len().min(6)], v.last());
+        }
+        ctx.finish();
+    }
+    ctx.index_stage("grid", Isolation::Threads, cases.len() as u64, |i| cases[i as usize].clone(), |c, s| test(&fonts, c, s, Some(&agree), true));
+    // listed discrepancies: still reproduced, so that the KNOWN-FINDING lines are printed and anything else shows up
+    let mut known: Vec<Case> = vec![];
+    for f in &fonts {
+        if f.name == "charstring_path_ops.ttf" {
+            known.push(Case { font: f.name.clone(), mode: 0, ppem: 16 });
+        } else if f.is_cff {
+            for (mode, p) in [(2u8, 2u32), (2, 4), (2, 2047), (2, 2048), (4, 3000)] {
+                known.push(Case { font: f.name.clone(), mode, ppem: p });
+            }
+        }
+    }
+    for (font, mode, p) in [("tthint_subset.ttf", 2u8, 16u32), ("tthint_subset.ttf", 1, 2), ("DejaVuSans.ttf", 2, 3000), ("material_icons_subset.ttf", 2, 2047)] {
+        known.push(Case { font: font.to_string(), mode, ppem: p });
+    }
+    ctx.index_stage("known-discrepancies", Isolation::Threads, known.len() as u64, |i| known[i as usize].clone(), |c, s| test(&fonts, c, s, Some(&agree), false));
+    ctx.finish();
+}
